@@ -218,11 +218,6 @@ func Facts(f *hc.Facts) {
 	f.Const("maxMessageSize", dir, "maxMessageSize")
 
 	wa := f.FuncDecl(dir, "writeAbridged")
-	if v, ok := cmpConst(f, wa, "encodeLength", token.LSS); ok {
-		f.Nat("abrThrW", v, "writeAbridged: encodeLength < …")
-	} else {
-		f.Missing("abrThrW", "writeAbridged: comparison encodeLength < const not found")
-	}
 	mark, okm := 0, false
 	if wa != nil {
 		ast.Inspect(wa, func(n ast.Node) bool {
@@ -238,24 +233,7 @@ func Facts(f *hc.Facts) {
 	} else {
 		f.Missing("abrMark", "writeAbridged: buf[0] = const not found")
 	}
-
-	ra := f.FuncDecl(dir, "readAbridged")
-	if v, ok := cmpConst(f, ra, "b.Buf[0]", token.GEQ); ok {
-		f.Nat("abrThrR", v, "readAbridged: b.Buf[0] >= …")
-	} else {
-		f.Missing("abrThrR", "readAbridged: comparison b.Buf[0] >= const not found")
-	}
-	max, _ := constExprName(f, "maxMessageSize")
-	g, ok := guard(f, ra, "n<<2", token.GTR, "b.ResetN(n")
-	f.Bool("abrGuard", ok && g == max, "readAbridged returns on n<<2 > maxMessageSize before b.ResetN(n << 2)")
-
 	rf := f.FuncDecl(dir, "readFull")
-	g, ok = guard(f, rf, "n", token.LSS, "b.Expand(")
-	f.Bool("fullGuard", ok, "readFull returns on n < const before b.Expand(n - bin.Word)")
-	if !ok {
-		g = 0
-	}
-	f.Nat("fullMin", g, "the constant of that guard (0 when absent)")
 
 	// envelope allowances: third argument of readLen
 	f.Nat("fullOver", readLenExtra(f, rf), "readFull: envelope argument of readLen (0 when absent)")
@@ -291,6 +269,7 @@ func Facts(f *hc.Facts) {
 
 	okr, why := onlyViaReadFull(f)
 	f.Bool("readsOnlyViaReadFull", okr, why)
+	SemanticFacts(f)
 }
 
 func constExprName(f *hc.Facts, name string) (int, bool) {
